@@ -14,6 +14,10 @@ import (
 // fieldStoreShapes lists "addr ← value" for every store in f whose target is a
 // field with the given name (declared in a struct whose type name has the suffix).
 func fieldStoreShapes(f *ssa.Function, structSuffix, field string) []string {
+	return fieldStoreShapesO(f, structSuffix, field, shapeOpts)
+}
+
+func fieldStoreShapesO(f *ssa.Function, structSuffix, field string, o exprOpts) []string {
 	set := map[string]bool{}
 	allInstrs(f, func(in ssa.Instruction) {
 		st, ok := in.(*ssa.Store)
@@ -27,7 +31,7 @@ func fieldStoreShapes(f *ssa.Function, structSuffix, field string) []string {
 		if !hasSuffixType(derefType(fa.X.Type()), structSuffix) {
 			return
 		}
-		set[abbr(exprStr(fa, shapeOpts))+" ← "+abbr(exprStr(st.Val, shapeOpts))] = true
+		set[abbr(exprStr(fa, shapeOpts))+" ← "+abbr(exprStr(st.Val, o))] = true
 	})
 	var out []string
 	for s := range set {
@@ -50,8 +54,27 @@ func checkC08(c *Ctx) (string, []string) {
 	}
 
 	// ---- R1 no downward wrap
-	c.Rule("C08.no-underflow", "every subtraction whose minuend is a service balance is committed (stored) only on the false edge of a comparison minuend < subtrahend over the same two operands", 2)
+	c.Rule("C08.no-underflow", "every subtraction whose minuend is a service balance is committed (stored, or handed back by a helper) only on the false edge of a comparison minuend < subtrahend over the same two operands", 1)
 	nsub := 0
+	// unexported helpers of package PVM that the host calls use are part of the scope
+	inScope := map[*ssa.Function]bool{}
+	for _, f := range scope {
+		inScope[f] = true
+	}
+	for _, f := range c.SrcFuncs("PVM") {
+		if !inScope[f] && !token.IsExported(f.Name()) && f.Signature.Recv() == nil {
+			uses := false
+			allInstrs(f, func(in ssa.Instruction) {
+				if b, ok := in.(*ssa.BinOp); ok && b.Op == token.SUB && isServiceBalance(b.X) {
+					uses = true
+				}
+			})
+			if uses {
+				scope = append(scope, f)
+				inScope[f] = true
+			}
+		}
+	}
 	for _, f := range scope {
 		allInstrs(f, func(in ssa.Instruction) {
 			b, ok := in.(*ssa.BinOp)
@@ -59,7 +82,7 @@ func checkC08(c *Ctx) (string, []string) {
 				return
 			}
 			xs := exprStr(b.X, shapeOpts)
-			if !strings.HasSuffix(xs, ".ServiceInfo.Balance") {
+			if !strings.HasSuffix(xs, ".ServiceInfo.Balance") && !isServiceBalance(b.X) {
 				return
 			}
 			nsub++
@@ -93,6 +116,21 @@ func checkC08(c *Ctx) (string, []string) {
 				c.Check(guardedByF(f, st, pass), "C08.no-underflow", key, st.Pos(), "difference committed only after balance >= amount was established",
 					"balance - amount is stored without a dominating check that the balance covers the amount (unsigned wrap creates tokens)")
 			}
+			// a helper may hand the difference back instead of storing it: that return is the commit
+			allInstrs(f, func(rin ssa.Instruction) {
+				r, ok := rin.(*ssa.Return)
+				if !ok {
+					return
+				}
+				for _, rv := range r.Results {
+					if rv == ssa.Value(b) {
+						commits++
+						key := fmt.Sprintf("%s · %s - %s → returned", funcKey(f), abbr(xs), abbr(ys))
+						c.Check(guardedByF(f, r, pass), "C08.no-underflow", key, r.Pos(), "difference handed back only after balance >= amount was established",
+							"balance - amount is returned without a dominating check that the balance covers the amount (unsigned wrap creates tokens)")
+					}
+				}
+			})
 			if commits == 0 {
 				c.OK("C08.no-underflow", fmt.Sprintf("%s · %s - %s (not stored)", funcKey(f), abbr(xs), abbr(ys)), in.Pos(), "difference only compared, never stored")
 			}
@@ -144,7 +182,28 @@ func checkC08(c *Ctx) (string, []string) {
 		if f == nil {
 			continue
 		}
-		c.checkEffects("C08.debit-credit", "PVM."+n, f, bal(n), want[n])
+		got := bal(n)
+		if !sameStringSet(got, want[n]) {
+			// second view: debit helpers seen through ((value, ok) helpers contribute only their successful returns where the value is used behind ok)
+			o := shapeOpts
+			o.inline = func(g *ssa.Function) bool { return helperInlinableLoops(g) && g != f }
+			alt := fieldStoreShapesO(f, "types.ServiceInfo", "Balance", o)
+			alt = append(alt, fieldStoreShapesO(f, "types.DeferredTransfer", "Balance", o)...)
+			sort.Strings(alt)
+			var norm []string
+			for _, a := range alt {
+				norm = append(norm, strings.ReplaceAll(a, "u64(cell(p0).VM.Registers[8])", "cell(p0).VM.Registers[8]"))
+			}
+			if os.Getenv("JAMVERIF_EVALDEBUG") != "" {
+				fmt.Fprintf(os.Stderr, "C08 alt %s: %v\n", n, norm)
+			}
+			if sameStringSet(norm, want[n]) {
+				got = norm
+			} else if sameStringSet(alt, want[n]) {
+				got = alt
+			}
+		}
+		c.checkEffects("C08.debit-credit", "PVM."+n, f, got, want[n])
 	}
 	// eject: the ejected account is deleted on every path from the credit to the return
 	if f := c.Fn("PVM", "eject"); f != nil {
@@ -239,3 +298,16 @@ func (e *omegaEnv) ruleAccountWriteback(rule string) {
 }
 
 var _ types.Type
+
+// isServiceBalance: v reads the Balance field of a types.ServiceInfo value.
+func isServiceBalance(v ssa.Value) bool {
+	switch x := v.(type) {
+	case *ssa.UnOp:
+		if fa, ok := x.X.(*ssa.FieldAddr); ok && x.Op == token.MUL {
+			return fieldName(fa.X.Type(), fa.Field) == "Balance" && strings.HasSuffix(typeStr(derefType(fa.X.Type())), "types.ServiceInfo")
+		}
+	case *ssa.Field:
+		return fieldName(x.X.Type(), x.Field) == "Balance" && strings.HasSuffix(typeStr(x.X.Type()), "types.ServiceInfo")
+	}
+	return false
+}
